@@ -23,6 +23,10 @@ pub enum Scn {
     Oneshots { n: usize },
     /// a second thread shuts down while main submits, then main awaits.
     ShutdownFromOther { n: usize },
+    /// n respawnable threads whose task returns at once (so each is respawned
+    /// after the throttling delay - a timed wait - until shutdown begins);
+    /// main shuts down and awaits.
+    Respawn { n: usize },
 }
 
 #[derive(Clone, Debug, PartialEq)]
@@ -64,7 +68,12 @@ pub fn configs(quick: bool) -> Vec<Cfg> {
     }
     for n in [1usize, 2] {
         v.push(Cfg { perm: 0, linger_ms: 0, scn: Scn::Oneshots { n } });
+        v.push(Cfg { perm: 0, linger_ms: 0, scn: Scn::Respawn { n } });
     }
+    // blocking submitters with no permanent worker: they can only be released
+    // by the shutdown
+    v.push(Cfg { perm: 0, linger_ms: 0, scn: Scn::Concurrent { submitters: 1, each: 1, blocking: true } });
+    v.push(Cfg { perm: 0, linger_ms: 5000, scn: Scn::Concurrent { submitters: 2, each: 1, blocking: true } });
     v
 }
 
@@ -83,6 +92,7 @@ struct LogInner {
     accepted: Vec<Option<bool>>,
     await_returned: bool,
     ran_after_await: Vec<usize>,
+    respawn_runs: usize,
     label: String,
 }
 
@@ -194,6 +204,30 @@ pub fn body(cfg: &Cfg) -> ExecReport {
             // (await_shutdown can only return once shutdown has begun)
             h.join().unwrap();
         }
+        Scn::Respawn { n } => {
+            n_tasks = n;
+            log = Log::new(n_tasks, cfg.label());
+            for i in 0..n {
+                // A respawnable task is Fn: it may legitimately run several
+                // times; count runs separately from the exactly-once tasks.
+                let runs = log.clone();
+                let r = group.start_respawnable(None, move || {
+                    let mut g = runs.inner.lock().unwrap();
+                    g.respawn_runs += 1;
+                    if g.await_returned {
+                        g.ran_after_await.push(i);
+                    }
+                });
+                if r.is_err() {
+                    viol("respawnable-rejected-before-shutdown", format!("respawnable {i} rejected although shutdown had not begun"));
+                }
+            }
+            group.shut_down();
+            if group.start_respawnable(None, || ()).is_ok() {
+                viol("accepted-after-shutdown", "a respawnable thread was accepted after shut_down() returned".to_string());
+            }
+            group.await_shutdown();
+        }
         Scn::Oneshots { n } => {
             n_tasks = n + 1;
             log = Log::new(n_tasks, cfg.label());
@@ -232,6 +266,7 @@ pub fn body(cfg: &Cfg) -> ExecReport {
         viol("await-returned-without-shutdown", "await_shutdown returned although the group is not shutting down".to_string());
     }
     let (started, finished) = mcshim::bodies();
-    let outcome = format!("{} timeouts_fired={} threads_started={} unfinished_at_await={}", summary, mcshim::timeouts_fired(), started, started - finished);
+    let respawn_runs = log.inner.lock().unwrap().respawn_runs;
+    let outcome = format!("{} timeouts_fired={} threads_started={} unfinished_at_await={} respawn_runs={}", summary, mcshim::timeouts_fired(), started, started - finished, respawn_runs);
     ExecReport { outcome, violation }
 }
